@@ -8,13 +8,38 @@
       [strings_domain]  rules non-empty and blank-free, species labels in [A-Za-z][A-Za-z0-9_]*.
       [rxns_of H]       the stored reactions (rule, reactants, products) as a list; multiset equality is [≡ₚ]. *)
 From stdpp Require Import gmap strings sets.
-From SK Require Import lib.Tok model.C15_Model proof.C15_Proof model.C16_Model proof.C16_Defs proof.C16_Chars proof.C16_Str proof.C16_Sg.
+From SK Require Import lib.Tok model.C15_Model proof.C15_Proof model.C16_Model proof.C16_Defs proof.C16_Chars proof.C16_Str proof.C16_Sg proof.C16_BipA proof.C16_BipB.
 Local Open Scope string_scope.
 
 (** every network reachable through the store operations (C15_inv_reachable) satisfies the decidable premise used below *)
 Theorem C16_inv_wf : ∀ H : net, Inv H → wf16 H.
 Proof. exact Inv_wf16. Qed.
 Print Assumptions C16_inv_wf.
+
+(** ** Bipartite species/reaction graph *)
+
+(** every export flag combination that exports the reaction ids and the coefficients (string node ids with any prefix
+    pair, or integer node ids; roles, isolated species, bipartite marker values and mol attributes on or off) followed
+    by an import with ANY import flags: no error, the same id -> (rule, reactants, products) map, the species of the
+    rebuilt network are the species occurring in reactions, and the molecule labels of those species come back exactly
+    (when exported and imported; none otherwise).  [bip_names_ok] (decidable): integer ids, or no species node gets the
+    same string id as a reaction node — automatic for the default prefixes "S:" / "R:", needed for un-prefixed ids
+    ([ex_bip_names_needed] in proof/C16_BipB.v). *)
+Theorem C16_bipartite_roundtrip : ∀ (fl : bflags) (ifl : iflags) (H : net),
+  wf16 H → f_eid fl = true → f_stoich fl = true → bip_names_ok fl H →
+  (bipartite_to_hypergraph ifl (hypergraph_to_bipartite fl H)).2 = None ∧
+  edges (bipartite_to_hypergraph ifl (hypergraph_to_bipartite fl H)).1 = edges H ∧
+  species (bipartite_to_hypergraph ifl (hypergraph_to_bipartite fl H)).1 = occurring H ∧
+  mol (bipartite_to_hypergraph ifl (hypergraph_to_bipartite fl H)).1
+    = if f_mol fl && i_mol ifl then filter (λ p, p.1 ∈ occurring H) (mol H) else ∅.
+Proof. exact bipartite_roundtrip. Qed.
+Print Assumptions C16_bipartite_roundtrip.
+
+(** the default prefixes never clash *)
+Theorem C16_default_prefixes_ok : ∀ (fl : bflags) (H : net),
+  f_sp fl = Some "S:" → f_rp fl = Some "R:" → bip_names_ok fl H.
+Proof. exact default_prefixes_ok. Qed.
+Print Assumptions C16_default_prefixes_ok.
 
 (** ** Reaction strings *)
 
